@@ -3016,6 +3016,10 @@ int x509_access_method_from_der(int *oid, const uint8_t **in, size_t *inlen)
 		else *oid = -1;
 		return ret;
 	}
+	if (!info) {
+		error_print();
+		return -1;
+	}
 	*oid = info->oid;
 	return 1;
 }
